@@ -106,6 +106,9 @@ func (m *multiMuxManager) AddConnection(yamuxSession *yamux.Session, conn net.Co
 	m.muxesLock.Lock()
 	defer m.muxesLock.Unlock()
 	if m.lifetime.Err() != nil {
+		// Shutting down: nobody will own this session, so close it instead of leaking it.
+		_ = yamuxSession.Close()
+		_ = conn.Close()
 		return
 	}
 	// ClientConn uses a map of string addresses to connections. So we need to generate unique strings for the map cheaply
